@@ -25,10 +25,11 @@ import seqgen
 from seqref import OOD
 
 import pyfacts
+import srcobl
 import props.c13 as c13
 
 ID = 'C14'
-LEAN_MODULES = ['Yaql.Props.C14', 'Yaql.Props.C14Gen']
+LEAN_MODULES = ['Yaql.Props.C14', 'Yaql.Props.C14Gen'] + srcobl.modules('C14')   # Props/SrcStream
 REQUIRED_THEOREMS = ['Yaql.Props.C14.' + n for n in (
     'causal causal_pipeline runOn_ext runPipe_ext prefix_stable pulls_le firstK_causal endless_total compose compose_cost '
     'causal_select causal_where causal_selectMany causal_skip causal_take causal_takeWhile causal_skipWhile causal_append '
@@ -43,7 +44,7 @@ REQUIRED_THEOREMS = ['Yaql.Props.C14.' + n for n in (
     'causal_joinInner causal_zipAt causal_zipLongestAt causal_splice causal_selectManyInner causal_secondary '
     'runOn_of_start_stop cost_tight_joinInner linJoinInner_cost joinInner_empty_outer joinInner_single_pass '
     'cost_tight_zipAt linZipAt_pulls cost_tight_splice splice_untouched spliceReplaceMany_none spliceReplaceMany_spec '
-    'spliceInsertMany_parts cost_tight_selectManyInner selectManyInner_empty').split()] + ['Yaql.Props.C14Gen.' + n for n in (
+    'spliceInsertMany_parts cost_tight_selectManyInner selectManyInner_empty').split()] + srcobl.theorems('C14') + ['Yaql.Props.C14Gen.' + n for n in (
         'streaming_ops_lazy streaming_ops_all_found streaming_ops_use_source').split()]
 TRUSTED = ['instrumentation: pulls are counted in __next__ of the host iterator handed to evaluate(data=...), lambda '
            'applications by a registered tick() evaluated first in every lambda (`tick() and (<lambda>)`)',
@@ -63,7 +64,9 @@ TERMINAL_OPS = ['first', 'any', 'all', 'indexOf', 'indexWhere']
 
 
 def generate():
-    return pyfacts.run(['StreamFacts'])
+    info = dict(pyfacts.run(['StreamFacts']))
+    info.update(srcobl.generate('C14'))     # re-translate the itertools-based streaming operators
+    return info
 
 
 # ------------------------------------------------------------------ sources
@@ -762,6 +765,9 @@ def run(env, res):
                 'over an instrumented endless arithmetic-periodic source, k in 0..6, lambdas from the Lam family containing '
                 'tick(); distinct = distinct (expression, source); non-trivial = the case was run (model produces the k '
                 'results within %d source elements) and at least one element was pulled' % N_PREFIX)
+    if env['replay'] and 'src_target' in (json.load(open(env['replay'])).get('case') or {}):
+        srcobl.differential(env, res, 'C14')
+        return res
     if env['replay']:
         rp = json.load(open(env['replay']))
         cases = [case_from_json(rp['case'])]
@@ -813,6 +819,8 @@ def run(env, res):
             res.fail(g[0], key[:60], g[1], case_to_json(small))
             if len(res.failures) >= 8 or sum('watchdog' in x.what for x in res.failures) >= 2:
                 break
+    if not env['replay']:
+        srcobl.differential(env, res, 'C14')     # take_while / skip_while / skip / limit: source vs translation vs model
     res.extra['histogram'] = hist
     res.extra['correspondence_wall_s'] = round(time.time() - t0, 1)
     return res
